@@ -13,10 +13,15 @@ def main():
     res = []
     clean = {}
     def clean_ok(p):
+        # the property's check must pass on a clean worktree of /repo's HEAD (the same base the patches are applied to)
         if p not in clean:
-            r = sh(f'{V}/bin/govc check {p} --verif /tmp/govc-selftest-clean-out', cwd=V)
-            clean[p] = (r.returncode == 0)
-            shutil.rmtree('/tmp/govc-selftest-clean-out', ignore_errors=True)
+            cw = tempfile.mkdtemp(prefix='govc-selftest-clean-'); os.rmdir(cw)
+            sh(f'git -C /repo worktree add --detach {cw} HEAD')
+            try:
+                r = sh(f'{V}/bin/govc check {p} --repo {cw} --verif {cw}/.verif-out', cwd=V)
+                clean[p] = (r.returncode == 0)
+            finally:
+                sh(f'git -C /repo worktree remove --force {cw}'); shutil.rmtree(cw, ignore_errors=True)
         return clean[p]
     for d in dirs:
         name = os.path.basename(d.rstrip('/'))
